@@ -28,7 +28,7 @@ ASSUMPTIONS = ['in-process main() on capture streams (C07 leg 4 confirms equival
 MANIFEST = {
     'technique': 'exhaustive enumeration of the finite configuration matrix on the real command-line entry point',
     'text': 'All 2592 combinations of input type, output format, output mode, colour/HTML and condensed layout, for '
-            'documents with and without differences (1 pair per type quick, 3 thorough), are run through main(); none '
+            'documents with and without differences (quick: 1 document pair per type under the full matrix + 7 branch-targeting pairs under type x format x mode; thorough: all 8 pairs under the full matrix), are run through main(); none '
             'may end in an internal error and the exit status must reflect whether the documents differ.',
     'note': 'The matrix is complete; the documents per cell are few.',
     'design_ref': 'DESIGN.md 4/C13',
@@ -121,7 +121,7 @@ EXT = {'json': 'json', 'json5': 'json5', 'yaml': 'yml', 'csv': 'csv', 'xml': 'xm
 def configs(tier):
     # document pair 0 (quick) / 0-2 (thorough) under the complete matrix; the other pairs, which target particular formatter
     # branches, under every input type x output format x mode (colour/html/layout do not select formatter branches)
-    nfull = 1 if tier == 'quick' else 3
+    nfull = 1 if tier == 'quick' else len(DOCS)
     for typ in TYPES:
         for fmt in (None,) + TYPES:
             for mode in MODES:
